@@ -37,6 +37,8 @@ pub trait GEl: Elem + PartialOrd {
     fn mk(re: i64, im: i64, e: i64, d: i64) -> Self;
     /// re * 2^er + i * im * 2^ei (an arbitrary f64 / pair of f64 given exactly; mantissas below 2^53)
     fn mk2(re: i64, er: i64, im: i64, ei: i64) -> Self;
+    /// from a float pair (float element types only)
+    fn fc(re: f64, im: f64) -> Self;
     fn c(&self) -> (f64, f64);
     fn hex(&self) -> String;
     /// the exact value (exact element type only)
@@ -45,17 +47,20 @@ pub trait GEl: Elem + PartialOrd {
 impl GEl for f64 {
     fn mk(re: i64, _im: i64, e: i64, d: i64) -> f64 { (if d == 1 { re as f64 } else { re as f64 / d as f64 }) * pow2(e) }
     fn mk2(re: i64, er: i64, _im: i64, _ei: i64) -> f64 { re as f64 * pow2(er) }
+    fn fc(re: f64, _im: f64) -> f64 { re }
     fn c(&self) -> (f64, f64) { (*self, 0.0) }
     fn hex(&self) -> String { bits(*self) }
 }
 impl GEl for Cmplx {
     fn mk(re: i64, im: i64, e: i64, d: i64) -> Cmplx { if d == 1 { Cmplx::new(re as f64 * pow2(e), im as f64 * pow2(e)) } else { Cmplx::new(re as f64 / d as f64 * pow2(e), im as f64 / d as f64 * pow2(e)) } }
     fn mk2(re: i64, er: i64, im: i64, ei: i64) -> Cmplx { Cmplx::new(re as f64 * pow2(er), im as f64 * pow2(ei)) }
+    fn fc(re: f64, im: f64) -> Cmplx { Cmplx::new(re, im) }
     fn c(&self) -> (f64, f64) { (self.real, self.imag) }
     fn hex(&self) -> String { format!("{}{}", bits(self.real), bits(self.imag)) }
 }
 impl GEl for Rat {
     fn mk(re: i64, _im: i64, e: i64, d: i64) -> Rat { if e != 0 || d != 1 { eprintln!("TOOL-ERROR exponent on an exact case"); std::process::exit(2) } Rat::int(re) }
+    fn fc(_re: f64, _im: f64) -> Rat { eprintln!("TOOL-ERROR float recipe on the exact type"); std::process::exit(2) }
     fn mk2(_re: i64, _er: i64, _im: i64, _ei: i64) -> Rat { eprintln!("TOOL-ERROR float-encoded case on the exact type"); std::process::exit(2) }
     fn c(&self) -> (f64, f64) { (self.to_f64(), 0.0) }
     fn hex(&self) -> String { format!("{}/{}", self.n, self.d) }
@@ -118,7 +123,32 @@ fn cdiv(z: CDD, w: CDD) -> CDD {
 /// Every implementation that pivots on a row of largest magnitude obtains these factors up to rounding, and then
 /// |b - A x| <= gamma_3n |L||U||x| componentwise (Higham, Thm 9.4) - a bound without the worst-case growth 2^(n-1).
 struct RefLu { m: Vec<f64>, norm: f64 }     // m = P^T |L||U| (rows in the order of A), norm = its infinity norm
+/// the same in plain (complex) f64 arithmetic for large orders: the factors only enter a bound, their own rounding
+/// errors (relative 1e-16 times the growth) are irrelevant
+fn ref_lu_fast(a: &[CDD], n: usize) -> Option<RefLu> {
+    let mut m: Vec<Cf> = a.iter().map(|z| (z.re.hi, z.im.hi)).collect(); let mut perm: Vec<usize> = (0..n).collect();
+    let ab = |z: Cf| z.0.hypot(z.1);
+    for k in 0..n {
+        let mut p = k; let mut best = ab(m[k * n + k]); let mut second = 0.0f64;
+        for i in k + 1..n { let v = ab(m[i * n + k]); if v > best { second = best; best = v; p = i; } else if v > second { second = v; } }
+        if !(best > 0.0) || !best.is_finite() || second > best * (1.0 - 1e-6) { return None; }
+        if p != k { for j in 0..n { m.swap(k * n + j, p * n + j); } perm.swap(k, p); }
+        let piv = m[k * n + k]; let d = piv.0 * piv.0 + piv.1 * piv.1;
+        for i in k + 1..n { let z = m[i * n + k]; let f = ((z.0 * piv.0 + z.1 * piv.1) / d, (z.1 * piv.0 - z.0 * piv.1) / d); m[i * n + k] = f;
+            if f != (0.0, 0.0) { for j in k + 1..n { let t = cf_mul(f, m[k * n + j]); m[i * n + j] = (m[i * n + j].0 - t.0, m[i * n + j].1 - t.1); } } }
+    }
+    let av: Vec<f64> = m.iter().map(|z| ab(*z)).collect();
+    let mut out = vec![0.0f64; n * n]; let mut norm = 0.0f64;
+    for i in 0..n {
+        let mut row = vec![0.0f64; n];
+        for j in i..n { row[j] = av[i * n + j]; }
+        for k in 0..i { let l = av[i * n + k]; if l != 0.0 { for j in k..n { row[j] += l * av[k * n + j]; } } }
+        let rs: f64 = row.iter().sum(); norm = nmax(norm, rs); for j in 0..n { out[perm[i] * n + j] = row[j]; }
+    }
+    if norm.is_finite() && norm > 0.0 { Some(RefLu { m: out, norm }) } else { None }
+}
 fn ref_lu(a: &[CDD], n: usize) -> Option<RefLu> {
+    if n > 160 { return ref_lu_fast(a, n); }
     let mut m = a.to_vec(); let mut perm: Vec<usize> = (0..n).collect();
     for z in &m { let v = z.abs(); if !v.is_finite() || (v != 0.0 && (v < pow2(-1010) || v > pow2(1010))) { return None; } }
     for k in 0..n {
@@ -239,12 +269,17 @@ fn nonsingular_mod_p(re: &[i64], im: &[i64], n: usize) -> bool {
 }
 
 // ------------------------------------------------------------------ exec
-fn hexes<T: GEl>(m: &Matrix<T>) -> Value { let mut v = Vec::new(); for i in 0..m.rows() { for j in 0..m.cols() { v.push(m[(i, j)].hex()); } } Value::from(v) }
+fn hexes<T: GEl>(m: &Matrix<T>) -> Value {
+    if m.rows() > 16 {   // large matrices: one FNV-1a hash over all bit patterns instead of n^2 strings
+        let mut h: u64 = 0xcbf29ce484222325; for i in 0..m.rows() { for j in 0..m.cols() { for byte in m[(i, j)].hex().bytes() { h ^= byte as u64; h = h.wrapping_mul(0x100000001b3); } } }
+        return json!([format!("{:016x}", h)]);
+    }
+    let mut v = Vec::new(); for i in 0..m.rows() { for j in 0..m.cols() { v.push(m[(i, j)].hex()); } } Value::from(v) }
 fn is_rat<T: GEl>() -> bool { T::NAME == "rat" }
 /// FNV-1a hash of the operands (identifies the input in events that do not carry the matrix itself)
 fn operand_hash(case: &Value) -> String {
     let mut h: u64 = 0xcbf29ce484222325;
-    for k in ["a", "ai", "ae", "aie", "adiv", "b", "bi", "be", "bie", "steps"] { if let Some(v) = case.get(k) { for byte in format!("{}={};", k, v).bytes() { h ^= byte as u64; h = h.wrapping_mul(0x100000001b3); } } }
+    for k in ["a", "ai", "ae", "aie", "adiv", "b", "bi", "be", "bie", "steps", "recipe", "n"] { if let Some(v) = case.get(k) { for byte in format!("{}={};", k, v).bytes() { h ^= byte as u64; h = h.wrapping_mul(0x100000001b3); } } }
     format!("{:016x}", h)
 }
 /// the fields every event of a case carries
@@ -413,13 +448,36 @@ fn q_inverse<T: GEl>(meta: &Value, a0: &Matrix<T>, lres: bool, out: &mut Out) {
     out.ev(e);
 }
 
+/// large systems are described by a recipe (family, order, seed) instead of n^2 numbers; the construction is deterministic
+fn recipe_build<T: GEl>(case: &Value) -> (Matrix<T>, Vector<T>) {
+    let n = getu(case, "n"); let rc = &case["recipe"]; let mut rng = rng(geti(rc, "rseed") as u64, 77); let cx = T::CX;
+    let mut a = vec![(0.0f64, 0.0f64); n * n]; let mut x = vec![(0.0f64, 0.0f64); n];
+    match gets(rc, "fam") {
+        "hint" => { // integers in -2..2, a dominant diagonal, rows permuted (exchanges are needed); integer solution, b = A x exactly
+            let p = rand_perm(&mut rng, n);
+            for i in 0..n { for j in 0..n { let v = if i == j { (2 * n as i64 + rng.gen_range(1..5)) * if rng.gen_bool(0.5) { 1 } else { -1 } } else { rng.gen_range(-2..=2) };
+                a[p[i] * n + j] = (v as f64, if cx && i != j { rng.gen_range(-2..=2) as f64 } else { 0.0 }); } }
+            for j in 0..n { x[j] = (rng.gen_range(-3..=3) as f64, if cx { rng.gen_range(-3..=3) as f64 } else { 0.0 }); }
+        }
+        _ => { // dense 20-bit values in (-1, 1) with a moderately strengthened, permuted diagonal (well conditioned), b = A x_true
+            let p = rand_perm(&mut rng, n);
+            for i in 0..n { for j in 0..n { let v = rng.gen_range(-(1i64 << 20)..(1i64 << 20)) as f64 * pow2(-20) + if i == j { (n as f64).sqrt() } else { 0.0 };
+                a[p[i] * n + j] = (v, if cx { rng.gen_range(-(1i64 << 20)..(1i64 << 20)) as f64 * pow2(-20) } else { 0.0 }); } }
+            for j in 0..n { x[j] = (rng.gen_range(0.5..1.5) * if rng.gen_bool(0.5) { 1.0 } else { -1.0 }, if cx { rng.gen_range(-1.0..1.0) } else { 0.0 }); }
+        }
+    }
+    let b = matvec_cf(&a, &x, n);
+    let mut m = Matrix::<T>::new(n, n, T::from_ri(0, 0)); for i in 0..n { for j in 0..n { m[(i, j)] = T::fc(a[i * n + j].0, a[i * n + j].1); } }
+    (m, Vector::create(b.iter().map(|z| T::fc(z.0, z.1)).collect()))
+}
 fn run_solve<T: GEl>(case: &Value, out: &mut Out) {
+    if case.get("recipe").is_some() { let (a0, b) = recipe_build::<T>(case); return q_solve(&meta_of(case), &a0, &b, None, out); }
     let a0 = build_mat::<T>(case); let b = build_rhs::<T>(case);
     q_solve(&meta_of(case), &a0, &b, case.get("want"), out);
 }
 fn flag(case: &Value, k: &str, default: bool) -> bool { case.get(k).and_then(|v| v.as_bool()).unwrap_or(default) }
 fn run_det<T: GEl>(case: &Value, out: &mut Out) {
-    let a0 = build_mat::<T>(case); let meta = meta_of(case);
+    let a0 = if case.get("recipe").is_some() { recipe_build::<T>(case).0 } else { build_mat::<T>(case) }; let meta = meta_of(case);
     // nodet: the determinant itself is outside the floating-point range (extremely scaled input); only inverse() is called
     if !flag(case, "nodet", false) { q_det(&meta, &a0, case.get("wdet"), out); }
     if flag(case, "inv", false) { q_inverse(&meta, &a0, flag(case, "lres", true), out); }
@@ -822,13 +880,13 @@ pub fn gen(tier: &str, seed: u64, out: &mut Out) {
     if which != "c02" {
         gen_solve(t, seed, &mut sink); gen_solve_hard(t, seed, &mut sink); gen_seq(t, seed, "c01", &mut sink); gen_ill(t, seed, &mut sink); gen_banded(t, seed, "solve", &mut sink);
         mixes.extend(gen_mix(t, seed, "solve", &sink.buf));
-        gen_sweep(t, seed, "solve", &mut sink); gen_wilkinson(t, seed, "solve", &mut sink); gen_large(t, seed, &mut sink); gen_rowcol(t, seed, "solve", &mut sink); gen_structured(t, seed, "solve", &mut sink);
+        gen_sweep(t, seed, "solve", &mut sink); gen_wilkinson(t, seed, "solve", &mut sink); gen_large(t, seed, &mut sink); gen_rowcol(t, seed, "solve", &mut sink); gen_structured(t, seed, "solve", &mut sink); gen_huge(t, seed, "solve", &mut sink);
     }
     let mark = sink.buf.len();
     if which != "c01" {
         gen_det(t, seed, &mut sink); gen_det_hard(t, seed, &mut sink); gen_seq(t, seed, "c02", &mut sink); gen_banded(t, seed, "det", &mut sink);
         mixes.extend(gen_mix(t, seed, "det", &sink.buf[mark..]));
-        gen_sweep(t, seed, "det", &mut sink); gen_wilkinson(t, seed, "det", &mut sink); gen_rowcol(t, seed, "det", &mut sink); gen_structured(t, seed, "det", &mut sink);
+        gen_sweep(t, seed, "det", &mut sink); gen_wilkinson(t, seed, "det", &mut sink); gen_rowcol(t, seed, "det", &mut sink); gen_structured(t, seed, "det", &mut sink); gen_huge(t, seed, "det", &mut sink);
     }
     if std::env::var("GAUSS_COUNTS").is_ok() { for (k, v) in &sink.counts { eprintln!("{} {}", k, v); } }
     sink.finish(mixes);
@@ -1510,4 +1568,23 @@ fn gen_structured(tier: &str, seed: u64, kind: &str, sink: &mut Sink) {
             if ok { break; }
         }
     } } } }
+}
+
+/// orders around and beyond a cache panel / block size of 256 (quick) and 512, 1024 (thorough): "all n x n"
+fn gen_huge(tier: &str, seed: u64, kind: &str, sink: &mut Sink) {
+    let quick = tier == "quick";
+    let mut k = 0u64;
+    let mut push = |sink: &mut Sink, ty: &str, fam: &str, n: usize| {
+        k += 1;
+        let mut c = json!({"ty": ty, "kind": kind, "fam": format!("huge_{}", fam), "n": n, "recipe": {"fam": fam, "rseed": seed * 1000 + k}});
+        if kind == "det" { c["inv"] = json!(true); c["nodet"] = json!(true); c["cw"] = json!(true); c["lres"] = json!(false); c["sing"] = json!(false); }
+        sink.push(c);
+    };
+    if kind == "solve" {
+        let sizes: Vec<usize> = if quick { vec![255, 256, 257, 258, 300] } else { vec![255, 256, 257, 258, 300, 511, 512, 513, 1025] };
+        for &n in &sizes { push(sink, "f64", "hdense", n); push(sink, "f64", "hint", n); }
+        for n in if quick { vec![257usize, 260] } else { vec![257usize, 260, 513] } { push(sink, "cx", "hdense", n); push(sink, "cx", "hint", n); }
+    } else {
+        for n in if quick { vec![257usize] } else { vec![257usize, 300, 513] } { push(sink, "f64", "hdense", n); if n < 400 { push(sink, "cx", "hint", n); } }
+    }
 }
